@@ -89,27 +89,33 @@ func C28(c *Ctx) {
 		errPropagated(c, r1, key(fn, fmt.Sprintf("commitRegion[%d]#error-propagated", i+1)), fn, m)
 	}
 	// (e) loops skip primary: an EQL test of the loop's region id against pid whose true edge does not reach the call
-	for name, s := range map[string]ssa.CallInstruction{"prewrite": pwS[0], "commit": cmS[0]} {
-		skip := false
-		for _, b := range fn.Blocks {
-			if ifi := ifOf(b); ifi != nil {
-				if bo, ok := ifi.Cond.(*ssa.BinOp); ok && bo.Op == token.EQL && (bo.Y == pid || bo.X == pid) && b.Dominates(s.Block()) {
-					if !blockReachesAvoiding(b.Succs[0], s.Block(), map[*ssa.BasicBlock]bool{loopHeaderOf(b): true}) {
-						skip = true
-					}
-				}
+	// decided by order-sign evaluation: with the loop's region id equal to the primary's the
+	// call is unreachable, with a different id it is reachable (any spelling of the skip)
+	role := func(v ssa.Value) string {
+		v = Unwrap(v)
+		if v == pid {
+			return "pid"
+		}
+		if ex, ok := v.(*ssa.Extract); ok && ex.Index == 1 {
+			if _, isNext := ex.Tuple.(*ssa.Next); isNext {
+				return "rid"
 			}
 		}
-		c.Decide(skip, r1, key(fn, "secondary-"+name+"-loop#skips-primary"), s.Pos(), 2, "the primary region is not handled twice", "the secondary "+name+" loop no longer skips the primary region")
+		return ""
+	}
+	for name, s := range map[string]ssa.CallInstruction{"prewrite": pwS[0], "commit": cmS[0]} {
+		eq := &SignEnv{Role: role, Signs: map[string]int{"pid:rid": 0}, Depth: 1}
+		ne := &SignEnv{Role: role, Signs: map[string]int{"pid:rid": 1}, Depth: 1}
+		skip := !eq.Reaches(fn, s.(ssa.Instruction)) && ne.Reaches(fn, s.(ssa.Instruction))
+		c.Decide(skip, r1, key(fn, "secondary-"+name+"-loop#skips-primary"), s.Pos(), eq.Visited+ne.Visited, "the primary region is not handled twice", "the secondary "+name+" loop no longer skips the primary region")
 	}
 	// (f) primary group must exist
 	g := false
 	for _, b := range fn.Blocks {
 		if ifi := ifOf(b); ifi != nil && b.Dominates(pwP[0].Block()) {
-			if ex, ok := ifi.Cond.(*ssa.Extract); ok {
-				if lk, ok := ex.Tuple.(*ssa.Lookup); ok && lk.CommaOk && lk.Index == pid {
-					g = true
-				}
+			// `_, ok := grouped[pid]; !ok` or `len(grouped[pid]) == 0`
+			if mentionsLookupOf(ifi.Cond, pid, 5) {
+				g = true
 			}
 		}
 	}
@@ -382,6 +388,29 @@ func derivesFromParam(v ssa.Value, p *ssa.Parameter, depth int) bool {
 		}
 	case *ssa.Convert:
 		return derivesFromParam(x.X, p, depth-1)
+	}
+	return false
+}
+
+// mentionsLookupOf: the condition is computed from a map lookup indexed by idx (its comma-ok
+// flag, its value, or the length of its value).
+func mentionsLookupOf(v ssa.Value, idx ssa.Value, depth int) bool {
+	if depth <= 0 || v == nil {
+		return false
+	}
+	switch x := v.(type) {
+	case *ssa.Lookup:
+		return x.Index == idx
+	case *ssa.Extract:
+		return mentionsLookupOf(x.Tuple, idx, depth-1)
+	case *ssa.UnOp:
+		return mentionsLookupOf(x.X, idx, depth-1)
+	case *ssa.BinOp:
+		return mentionsLookupOf(x.X, idx, depth-1) || mentionsLookupOf(x.Y, idx, depth-1)
+	case *ssa.Call:
+		if bi, ok := x.Call.Value.(*ssa.Builtin); ok && bi.Name() == "len" && len(x.Call.Args) == 1 {
+			return mentionsLookupOf(x.Call.Args[0], idx, depth-1)
+		}
 	}
 	return false
 }
